@@ -110,7 +110,27 @@ FailsOther(t, k) ==
                 \cup Tag("egress", BadEgressX(mine2, NeighbourPods(snap, o.ns)) \cup BadEgress(built))
            ELSE {})
 FailsTeardown(t) == Tag("calls", BadCalls({NAct(a) : a \in SetOf(t.teardown.acts)}, t.ns))
-Fails(t) == UNION {FailsRound(t, k) : k \in DOMAIN t.rounds} \cup UNION {FailsOther(t, k) : k \in DOMAIN t.other} \cup FailsTeardown(t)
+\* The clusters the real code passed through: the recorded calls of a Deploy folded over the cluster it started from.
+\* Whenever pods appear or change (a deployment is created / updated) while policies are enabled, the network clauses
+\* must already hold (the J3 mirror of InvIngress / InvEgress on every intermediate cluster of the model).
+ApplyRec(cl, a) ==
+  CASE a.verb = "create" -> cl \cup {Stored(a.obj)}
+    [] a.verb = "update" -> (cl \ Find(cl, a.kind, a.ans, a.name)) \cup {Stored(a.obj)}
+    [] a.verb = "delete-collection" -> cl \ {o \in cl : o.kind = a.kind /\ o.ans = a.ans /\ SelMatches(a.sel, o.labels)}
+    [] a.verb = "delete-set" -> cl \ {o \in cl : o.kind = a.kind /\ o.ans = a.ans /\ o.name \in a.names}
+    [] OTHER -> cl
+RECURSIVE After(_, _, _)
+After(cl, acts, n) == IF n = 0 THEN cl ELSE ApplyRec(After(cl, acts, n - 1), acts[n])
+Start(t, k) == IF k = 1 THEN {ProviderNamespaceObj} ELSE Snap(t, k - 1)
+FailsWindow(t, k) ==
+  LET acts == RecActs(t, k)
+      allsv == Flatten([j \in 1..k |-> Rounds(t)[j].svcs])
+      at == {j \in DOMAIN acts : acts[j].verb \in {"create", "update"} /\ acts[j].kind = "deployment"} IN
+  IF ~Rounds(t)[k].st.netpol THEN {}
+  ELSE UNION {LET cl == Mine(After(Start(t, k), acts, i), t.ns) IN
+              Tag("ingress-window", BadIngress(cl, allsv)) \cup Tag("egress-window", BadEgress(cl)) : i \in at}
+
+Fails(t) == UNION {FailsRound(t, k) \cup FailsWindow(t, k) : k \in DOMAIN t.rounds} \cup UNION {FailsOther(t, k) : k \in DOMAIN t.other} \cup FailsTeardown(t)
 
 \* (ii) CONFORMANCE with the generator model
 RECURSIVE Model(_, _)
@@ -121,12 +141,14 @@ ModelCreates(t, k) ==
   {m.acts[i].obj : i \in {j \in DOMAIN m.acts : m.acts[j].verb = "create"}}
 DriftRound(t, k) ==
   LET m == Model(t, k) IN
-  (IF t.rounds[k].err # "" THEN {<<"deploy-error", k>>} ELSE {})
-  \cup (IF RecActs(t, k) # m.acts THEN {<<"calls", k>>} ELSE {})
-  \cup (IF Snap(t, k) # m.cluster THEN {<<"cluster", k>>} ELSE {})
+  (IF t.rounds[k].err # "" THEN {<<"deploy-error", ToString(k)>>} ELSE {})
+  \cup (IF RecActs(t, k) # m.acts THEN {<<"calls", ToString(k)>>} ELSE {})
+  \cup (IF Snap(t, k) # m.cluster THEN {<<"cluster", ToString(k)>>} ELSE {})
+  \* the recorded calls, folded, give the recorded cluster (recorder and snapshot agree)
+  \cup (IF After(Start(t, k), RecActs(t, k), Len(t.rounds[k].acts)) # Snap(t, k) THEN {<<"fold", ToString(k)>>} ELSE {})
   \* the builders called directly return what a Deploy into an empty cluster creates (last ingress of a service wins there)
   \cup (IF ~(ModelCreates(t, k) \subseteq Built(t, k)) \/ \E o \in Built(t, k) \ ModelCreates(t, k) : o.kind # "ingress"
-        THEN {<<"builders", k>>} ELSE {})
+        THEN {<<"builders", ToString(k)>>} ELSE {})
 ClusterAfterMain(t) == Model(t, Len(t.rounds)).cluster
 DriftOther(t, k) ==      \* at most one other lease per input
   LET o == t.other[k]  rr == o.round
@@ -136,9 +158,10 @@ DriftOther(t, k) ==      \* at most one other lease per input
   (IF rr.err # "" THEN {<<"deploy-error", "other">>} ELSE {})
   \cup (IF RActs(rr) # m.acts THEN {<<"calls", "other">>} ELSE {})
   \cup (IF RSnap(rr) # m.cluster THEN {<<"cluster", "other">>} ELSE {})
+  \cup (IF After(LastSnap(t), RActs(rr), Len(rr.acts)) # RSnap(rr) THEN {<<"fold", "other">>} ELSE {})
   \cup (IF ~(creates \subseteq RBuilt(rr)) \/ \E x \in RBuilt(rr) \ creates : x.kind # "ingress" THEN {<<"builders", "other">>} ELSE {})
 DriftTeardown(t) ==
-  (IF t.teardown.err # "" THEN {<<"teardown-error", 0>>} ELSE {})
+  (IF t.teardown.err # "" THEN {<<"teardown-error", "teardown">>} ELSE {})
   \cup (IF [i \in DOMAIN t.teardown.acts |-> NAct(t.teardown.acts[i])] # Teardown({}, t.ns).acts THEN {<<"calls", "teardown">>} ELSE {})
 Drift(t) == UNION {DriftRound(t, k) : k \in DOMAIN t.rounds} \cup UNION {DriftOther(t, k) : k \in DOMAIN t.other} \cup DriftTeardown(t)
 
